@@ -498,6 +498,78 @@ let run_efi mo jo impl secs =
     List.iter (fun toks -> judge_search jo "C10" id c.c_eps data sentinel toks) lines
   | _ -> ()
 
+(* ---- MAP: MappedPGMIndex ---- *)
+let hex_of_bytes (bs : z list) : string =
+  let b = Buffer.create (2 * List.length bs) in
+  List.iter (fun v -> Buffer.add_string b (Printf.sprintf "%02x" (iz v))) bs; Buffer.contents b
+
+let run_map mo jo impl secs =
+  match secs with
+  | ("MAP" :: id :: _name :: kb :: sg :: eps :: epsrec :: fd :: _) :: _ ->
+    let kt = { kbits = zin kb; ksigned = (sg = "1") } in
+    let c = { c_kt = kt; c_eps = zin eps; c_epsrec = zin epsrec; c_fdouble = (fd = "1"); c_par = zi 1; c_avx512 = !avx512 } in
+    let data = List.map zin (nth_sec secs 1) and queries = List.map zin (nth_sec secs 2) in
+    pr mo "C %s\n" id;
+    let queries_on (m : mapped) tag =
+      pr mo "S%s %d %d\n" tag (List.length m.mp_data) (if List.map zout m.mp_data = List.map zout data then 1 else 0);
+      List.iter (fun q ->
+        let s = function Ok v -> zout v | Err e -> err_name e in
+        pr mo "Q%s %s %s %s %s %s\n" tag (zout q) (s (mapped_lower_bound c m q)) (s (mapped_upper_bound c m q)) (s (mapped_count c m q))
+          (match mapped_contains c m q with Ok b -> if b then "1" else "0" | Err e -> err_name e)) queries in
+    let a = from_range c data in
+    (match a with
+     | Ok m -> pr mo "BA ok\nFA %s\n" (hex_of_bytes m.mp_file); queries_on m "A"
+     | Err e -> pr mo "BA %s\n" (err_name e));
+    let b = from_raw c (raw_file c data) in
+    (match b with
+     | Ok m -> pr mo "BB ok\nFB %s\n" (hex_of_bytes m.mp_file); queries_on m "B"
+     | Err e -> pr mo "BB %s\n" (err_name e));
+    (match a with
+     | Ok m when m.mp_file <> [] ->
+       (match reopen c m.mp_file with
+        | Ok r -> pr mo "BC ok\n"; queries_on r "C"; queries_on r "E"
+        | Err e -> pr mo "BC %s\n" (err_name e));
+       pr mo "UA 1\n"
+     | _ -> ());
+    (match b with
+     | Ok m when m.mp_file <> [] ->
+       (match reopen c m.mp_file with
+        | Ok r -> pr mo "BD ok\n"; queries_on r "D"
+        | Err e -> pr mo "BD %s\n" (err_name e))
+     | _ -> ());
+    (* judges on the implementation's output *)
+    (match Hashtbl.find_opt impl id with
+     | None -> ()
+     | Some lines ->
+       let nn = List.length data in
+       let sentinel = zout (kmax kt) in
+       let fa = ref "" and fb = ref "" in
+       let answers = Hashtbl.create 64 in
+       List.iter (fun toks -> match toks with
+         | ["FA"; h] -> fa := h
+         | ["FB"; h] -> fb := h
+         | ["UA"; u] -> judge jo "C12" id "reopening altered the file" (u = "1")
+         | [tag; sz; eq] when String.length tag = 2 && tag.[0] = 'S' ->
+           judge jo (if tag = "SA" then "C11" else "C12") id ("container " ^ tag ^ " exposes size " ^ sz ^ " / sequence equal " ^ eq) (sz = string_of_int nn && eq = "1")
+         | [tag; q; l; u; cnt; cont] when String.length tag = 2 && tag.[0] = 'Q' ->
+           if q <> sentinel then begin
+             let qz = zin q in
+             let el = zout (lb data qz) and eu = zout (ub data qz) in
+             let ec = string_of_int (iz (ub data qz) - iz (lb data qz)) in
+             let econt = if ec = "0" then "0" else "1" in
+             let prop = if tag = "QA" then "C11" else "C12" in
+             judge jo prop id (tag ^ " q=" ^ q ^ " lower_bound=" ^ l ^ " upper_bound=" ^ u ^ " count=" ^ cnt ^ " contains=" ^ cont ^
+                               " expected " ^ el ^ " " ^ eu ^ " " ^ ec ^ " " ^ econt) (l = el && u = eu && cnt = ec && cont = econt);
+             (* identical answers across the construction paths *)
+             let key = q in
+             (match Hashtbl.find_opt answers key with
+              | None -> Hashtbl.replace answers key (l, u, cnt, cont)
+              | Some prev -> judge jo "C12" id (tag ^ " q=" ^ q ^ " answers differ between containers") (prev = (l, u, cnt, cont)))
+           end
+         | _ -> ()) lines;
+       if !fa <> "" || !fb <> "" then judge jo "C12" id "range constructor and raw-file constructor wrote different files" (!fa = !fb))
+  | _ -> ()
+
 let () =
   let mode = Sys.argv.(1) in
   let cases = Sys.argv.(2) and implf = Sys.argv.(3) and modelf = Sys.argv.(4) and judgef = Sys.argv.(5) in
@@ -510,6 +582,7 @@ let () =
     | "idx" -> run_idx mo jo impl secs; run_seg mo jo impl secs
     | "dyn" -> run_dyn mo jo impl secs
     | "var" -> run_bkt mo jo impl secs; run_efi mo jo impl secs
+    | "map" -> run_map mo jo impl secs
     | _ -> failwith "unknown mode") (read_lines cases);
   Hashtbl.iter (fun prop (n, f) -> pr jo "JSUM %s %d %d\n" prop n f) jcount;
   close_out mo; close_out jo
